@@ -122,6 +122,12 @@ func (f *Frame) execStmt(st *State, s ast.Stmt) *State {
 		if f.isIgnorableDefer(x) {
 			return st
 		}
+		if f.top && f.c.contract != nil && f.c.contract.Glue {
+			// glue contract: deferred closures (panic recovery, tracer hooks, pool recycling) are not
+			// modelled; the facts proved hold for executions that do not panic
+			f.c.note("glue contract " + f.c.fnName + ": deferred calls (" + exprString(x.Call.Fun) + ") are not modelled; claims hold for executions without panics")
+			return st
+		}
 		f.defers = append(f.defers, x)
 		f.unsupported(s, "defer of %s", exprString(x.Call.Fun))
 	case *ast.GoStmt:
